@@ -372,6 +372,27 @@ def guards():
     add("function without a JVP rule in forward mode (hypot)", lambda: make_jvp(lambda v: np.hypot(v, 2.0))(x3)(x3))
     add("boolean input", lambda: grad(lambda v: 1.0 * v)(True))
     add("jacobian with a tuple argnum", lambda: jacobian(lambda a, b: a * b, (0, 1))(x3, x3))
+    # leaving the traced world through Python's conversion protocols must not silently turn a traced value into a constant
+    import math
+
+    def store(v):
+        buf = onp.zeros(3)
+        buf[0] = v[0] ** 2
+        return np.sum(v) + buf[0]
+
+    def store_slice(v):
+        buf = onp.zeros(3)
+        buf[:] = v ** 2
+        return np.sum(buf)
+    add("float() of a traced scalar", lambda: grad(lambda t: float(t) * t)(1.3))
+    add("int() of a traced scalar", lambda: grad(lambda t: int(t) * t)(1.3))
+    add("complex() of a traced scalar", lambda: grad(lambda t: np.real(complex(t) * t))(1.3))
+    add("math.sin of a traced scalar", lambda: grad(lambda t: math.sin(t) * t)(1.3))
+    add("math.exp of a traced scalar (forward mode)", lambda: make_jvp(lambda t: math.exp(t) * t)(1.3)(1.0))
+    add("storing a traced entry into a plain ndarray", lambda: grad(store)(x3))
+    add("storing a traced array into a plain ndarray slice", lambda: grad(store_slice)(x3))
+    add("numpy.float64() of a traced scalar", lambda: grad(lambda t: onp.float64(t) * t)(1.3))
+    add("plain numpy function on a traced array (onp.sin)", lambda: grad(lambda v: np.sum(onp.sin(v) * v))(x3))
     rows = []
     for i, (name, thunk) in enumerate(cases):
         try:
